@@ -35,7 +35,6 @@ pub enum Op {
     AdderSub(u32, u32),
     // calls on the connection shared by all threads (created by the main task's setup)
     SharedCalc,
-    SAdd(u32, u32),
     SApply(u32),
     SFeed(u32),
     SMake(u32),
@@ -56,8 +55,28 @@ pub struct Scenario {
     /// needs the cdylib of /repo/savefile-abi-min-lib-impl
     pub needs_plugin: bool,
     pub thorough_only: bool,
-    /// also explored without preemption bound in the thorough tier
-    pub unbounded_in_thorough: bool,
+    /// larger harness: bounded exploration only
+    pub large: bool,
+}
+
+impl Scenario {
+    /// Preemption bounds explored, in order (None = unbounded). Iterative context bounding:
+    /// every bound is a complete DFS of all schedules with at most that many preemptions.
+    pub fn bounds(&self, thorough: bool) -> Vec<Option<u32>> {
+        if self.threads.is_empty() {
+            return vec![Some(0)];
+        }
+        if !thorough {
+            return vec![Some(0), Some(1), Some(2)];
+        }
+        if self.large {
+            vec![Some(0), Some(1), Some(2), Some(3)]
+        } else if self.threads.len() <= 2 {
+            vec![Some(0), Some(1), Some(2), Some(3), None]
+        } else {
+            vec![Some(0), Some(1), Some(2), Some(3), Some(4), Some(5)]
+        }
+    }
 }
 
 fn scn(id: &'static str, title: &'static str, setup: Vec<Op>, threads: Vec<Vec<Op>>, post: Vec<Op>) -> Scenario {
@@ -70,7 +89,7 @@ fn scn(id: &'static str, title: &'static str, setup: Vec<Op>, threads: Vec<Vec<O
         selftest: false,
         needs_plugin: false,
         thorough_only: false,
-        unbounded_in_thorough: false,
+        large: false,
     }
 }
 
@@ -78,15 +97,13 @@ pub fn all() -> Vec<Scenario> {
     use Op::*;
     let std_post = || vec![NewCalc, Add(10, 20), NewCalcPlain, Apply(4), NewText, Shout("post")];
     let mut v = vec![];
-    let mut s = scn(
+    v.push(scn(
         "S1",
         "two threads create a connection for the same interface (first use), then call",
         vec![],
         vec![vec![NewCalc, Add(1, 2)], vec![NewCalc, Add(3, 4)]],
         std_post(),
-    );
-    s.unbounded_in_thorough = true;
-    v.push(s);
+    ));
     v.push(scn(
         "S1n",
         "same interface, first use, then a call with a closure argument (callee creates the nested connection)",
@@ -101,15 +118,13 @@ pub fn all() -> Vec<Scenario> {
         vec![vec![NewCalc, Apply(5), Make(2)], vec![NewCalc, Feed(7)]],
         std_post(),
     ));
-    let mut s = scn(
+    v.push(scn(
         "S2",
         "two threads, different interfaces, first use, then call",
         vec![],
         vec![vec![NewCalc, Add(1, 2)], vec![NewText, Shout("abc")]],
         std_post(),
-    );
-    s.unbounded_in_thorough = true;
-    v.push(s);
+    ));
     v.push(scn(
         "S2v",
         "different interfaces, one with a caller/callee version skew",
@@ -162,6 +177,26 @@ pub fn all() -> Vec<Scenario> {
         vec![vec![LoadCalc, Feed(1)], vec![NewCalcPlain, Apply(2)], vec![NewVer, VerGet(3)]],
         std_post(),
     ));
+    let mut s = scn(
+        "S3L",
+        "larger S3: three calls per thread on the shared connection, third thread creates and calls",
+        vec![SharedCalc],
+        vec![vec![SApply(3), SFeed(4), SMake(1)], vec![SMake(5), SApply(6), SFeed(2)], vec![NewCalc, Feed(9)]],
+        std_post(),
+    );
+    s.large = true;
+    s.thorough_only = true;
+    v.push(s);
+    let mut s = scn(
+        "S5L",
+        "larger S5: three operations per thread, three interfaces, in-process and load_shared_library creation",
+        vec![],
+        vec![vec![NewCalc, Apply(5), Feed(1)], vec![LoadCalc, Make(2), Concat(3)], vec![NewText, Shout("z"), NewVer]],
+        std_post(),
+    );
+    s.large = true;
+    s.thorough_only = true;
+    v.push(s);
     v.push(scn(
         "R1",
         "single thread: an implementation's method, and a caller's closure run by the callee, create further connections",
@@ -337,7 +372,6 @@ pub fn exec_op(op: &Op, ctx: &mut Ctx, env: &Env) -> String {
             })
             .unwrap_or(NO_CONN.into()),
         SharedCalc => "shared".into(),
-        SAdd(a, b) => env.shared_calc.as_ref().map(|c| c.add(*a, *b).to_string()).unwrap_or(NO_CONN.into()),
         SApply(x) => env.shared_calc.as_ref().map(|c| c.apply(&triple, *x).to_string()).unwrap_or(NO_CONN.into()),
         SFeed(x) => env.shared_calc.as_ref().map(|c| c.feed(Box::new(Counter::new(*x))).to_string()).unwrap_or(NO_CONN.into()),
         SMake(x) => env
